@@ -43,6 +43,8 @@ enum Mutation {
     /// presented from the socket the sender's record advertises (differs from the real one for a NATed /
     /// stale record)
     SpoofAdvertised,
+    /// presented from the IPv4-mapped IPv6 alias of the genuine source (same IP, same port, other address family)
+    SpoofMapped,
     /// insert junk bytes behind the auth-data and patch the (masked) authdata-size field to cover
     /// them: XOR in the masked domain flips the same bits in the clear, so no key is needed
     GrowAuthData(usize),
@@ -244,7 +246,8 @@ async fn run_async(ctx: &mut Ctx, enumerate: bool) {
                         Mutation::None
                     }
                 } else {
-                    match ctx.tape.choose(12) {
+                    match ctx.tape.choose(13) {
+                        12 => Mutation::SpoofMapped,
                         11 => Mutation::SpoofAdvertised,
                         10 => Mutation::SpoofPort,
                         9 => Mutation::GrowAuthData(1 + ctx.tape.choose(12) as usize),
@@ -317,6 +320,13 @@ async fn run_async(ctx: &mut Ctx, enumerate: bool) {
                         let mut src = rec.src;
                         src.set_port(rec.src.port().wrapping_add(7));
                         (rec.bytes.clone(), to, src, "same_ip_other_port")
+                    }
+                    Mutation::SpoofMapped => {
+                        let src = match rec.src {
+                            std::net::SocketAddr::V4(a) => std::net::SocketAddr::new(std::net::IpAddr::V6(a.ip().to_ipv6_mapped()), a.port()),
+                            other => other,
+                        };
+                        (rec.bytes.clone(), to, src, "mapped_alias_of_source")
                     }
                     Mutation::SpoofSource => {
                         let other = (from + 1 + (to == (from + 1) % 3) as usize) % 3;
